@@ -103,6 +103,19 @@ def targeted_programs(dev):
                 E("comment", text="only a comment  "), E("comment", text="two\nlines "), {"op": "save", "fname": "W\u00fcrze/run.gwl"}, {"op": "str"},
                 {"op": "exit", "pre": "longer"}, {"op": "clear"}, {"op": "exit", "pre": "shorter"}, some[3], {"op": "exit"}]
     progs.append(h)
+    # a save to the block's own path inside the block, more records afterwards: the file written on exit has all of them
+    h = _hdr("files/save-own-path-inside", dev)
+    h["ops"] = [{"op": "enter"}, some[1], some[3], {"op": "save", "fname": "run.gwl"}, some[6], some[0], some[4], {"op": "exit"},
+                {"op": "enter"}, some[2], {"op": "save", "fname": "run.gwl", "pathkind": "path"}, {"op": "save", "fname": "run.gwl"}, some[1], {"op": "exit", "pre": "longer"}]
+    progs.append(h)
+    # free text in the last field of a record may end in a blank (or a Latin-1 non-breaking space): the file has it too
+    h = _hdr("files/blanks-at-the-ends", dev)
+    h["ops"] = [{"op": "enter"},
+                E("aspirate_well", rack="R1", pos=I(3), vol=12340, frt="96 Well Microplate "),
+                E("dispense_well", rack="R2", pos=I(4), vol=5000, frt="tube\u00a0"),
+                E("aspirate_well", rack="R1", pos=I(5), vol=1000, frt=" padded"),
+                {"op": "save", "pre": "longer"}, {"op": "str"}, {"op": "exit", "pre": "shorter"}]
+    progs.append(h)
     # a worklist without a path: leaving the block writes nothing
     h = _hdr("files/nopath", dev, file=False)
     h["ops"] = [{"op": "enter"}, some[1], {"op": "exit"}, {"op": "str"}, {"op": "save"}]
